@@ -177,6 +177,9 @@ func (i *interpreter) notePanic(fr *frame, instr *ssa.Panic) {
 func classifyPanic(p interface{}, fr *frame) interface{} {
 	switch x := p.(type) {
 	case abort:
+		if (x.kind == "unsupported" || x.kind == "unwind" || x.kind == "budget") && !strings.Contains(x.msg, "\n      ") {
+			x.msg += " at " + fr.i.targetStack(fr, 12)
+		}
 		return x
 	case targetPanic:
 		return x
@@ -188,8 +191,8 @@ func classifyPanic(p interface{}, fr *frame) interface{} {
 			n := runtime.Stack(buf, false)
 			return abort{"unsupported", "engine fault in " + fr.fn.String() + ": " + msg + "\n" + string(buf[:n])}
 		}
-		if fr.i.res != nil {
-			fr.i.res.lastPanicSite = fr.fn.String() + " (runtime error: " + msg + ")"
+		if fr.i.res != nil && !strings.Contains(fr.i.res.lastPanicSite, msg) {
+			fr.i.res.lastPanicSite = "(runtime error: " + msg + ") at " + fr.i.targetStack(fr, 14)
 		}
 		return x
 	case string:
@@ -205,4 +208,18 @@ func classifyPanic(p interface{}, fr *frame) interface{} {
 		return abort{"unsupported", "engine: " + x + " in " + fr.fn.String()}
 	}
 	return abort{"unsupported", fmt.Sprintf("engine: unexpected panic %T %v in %s", p, p, fr.fn.String())}
+}
+
+// targetStack renders the interpreted call stack.
+func (i *interpreter) targetStack(fr *frame, max int) string {
+	var sb strings.Builder
+	for f, n := fr, 0; f != nil && n < max; f, n = f.caller, n+1 {
+		pos := ""
+		if f.cur != nil && f.cur.Pos().IsValid() {
+			p := i.prog.Fset.Position(f.cur.Pos())
+			pos = fmt.Sprintf(" %s:%d", p.Filename, p.Line)
+		}
+		sb.WriteString("\n      " + f.fn.String() + pos)
+	}
+	return sb.String()
 }
